@@ -54,7 +54,7 @@ def run_config(cfg):
     ns = build_torch_ns(env)
     viol = []
     ob = dis = 0
-    max_steps = nutt * 6 + 2
+    max_steps = nutt * 9 + 2       # six steps per utterance in the present code; room for a few more (scratch file, rename)
 
     def fresh_run(manifest, files, seed, crash_at=None, fault=None):
         env.saved, env.printed, env.seeds, env.reads = [], [], [], []
@@ -233,15 +233,19 @@ def replay(w):
 
         def save(obj, path, *a, **kw):
             if count[0] == k:
-                with open(path, 'wb') as f:
-                    f.write(b'partial')
+                if hasattr(path, 'write'):
+                    path.write(b'partial')
+                    path.flush()
+                else:
+                    with open(path, 'wb') as f:
+                        f.write(b'partial')
                 if w.get('write_fails'):
                     count[0] += 1
                     raise OSError(28, 'No space left on device')       # the write itself fails (disk full); no kill
                 raise Kill()
             count[0] += 1
             r_ = real_save(obj, path, *a, **kw)
-            completed.append(os.path.basename(str(path))[:-3])       # processing order is the tool's business: record what was really completed
+            completed.append(os.path.basename(str(getattr(path, 'name', path))).split('.')[0])       # processing order is the tool's business: record what was really completed
             return r_
         torch.save = save
         parse = command_line._signals_to_torch_feat_dir_parse_args
@@ -320,6 +324,8 @@ def replay(w):
             if a.shape != b.shape or not torch.equal(a, b):
                 return {'reproduced': True, 'detail': 'after kill (during utterance %d) + resume, %s (map line %d, ids not sorted) differs from the uninterrupted run (max diff %.3g)'
                         % (k, uid(u, nutt), u, float((a - b).abs().max()) if a.shape == b.shape else float('nan'))}
+        if sorted(os.listdir(out)) != sorted(os.listdir(ref)):
+            return {'reproduced': True, 'detail': 'after kill (during utterance %d) + resume the directory holds %s, an uninterrupted run leaves %s' % (k, sorted(os.listdir(out)), sorted(os.listdir(ref)))}
         # a second invocation over the completed, uninterrupted directory: everything is listed, nothing may be touched
         with open(os.path.join(work, 'ref.manifest')) as f:
             listed_ref = [l.strip() for l in f if l.strip()]
